@@ -49,13 +49,15 @@ theorem blurCore_def (img k : Arr ℝ) :
 
 /-- the three blurs as the source composes them (`Gen.bw…Renorm` regenerated from the `return` statements) -/
 theorem pixel_def (img : Arr ℝ) (os : ℝ) : pixel ℂ img os = blurCore ℂ img (pixelKernel img.s0 img.s1 os) := by
-  simp only [pixel, Gen.bwPixelRenorm, Bool.false_eq_true, if_false]
+  simp only [pixel, Gen.bwPixelRenorm, Bool.false_eq_true, if_false, Gen.bwPixelApply, stAbs, stIfft2, stFft2, stMul, blurCore]
 theorem jitter_def (img : Arr ℝ) (scale ps os : ℝ) :
     jitter ℂ img scale ps os = renorm img (blurCore ℂ img (jitterKernel img.s0 img.s1 scale ps os)) := by
-  simp only [jitter, Gen.bwJitterRenorm, if_true]
+  simp only [jitter, Gen.bwJitterRenorm, if_true, Gen.bwJitterApply, stAbs, stIfft2, stFft2, stMul, blurCore, renormWith, renorm,
+    Gen.bwJitterRenormExpr]
 theorem smear_def (img : Arr ℝ) (dist ang ps os : ℝ) :
     smear ℂ img dist ang ps os = renorm img (blurCore ℂ img (smearKernel img.s0 img.s1 dist ang ps os)) := by
-  simp only [smear, Gen.bwSmearRenorm, if_true]
+  simp only [smear, Gen.bwSmearRenorm, if_true, Gen.bwSmearApply, stAbs, stIfft2, stFft2, stMul, blurCore, renormWith, renorm,
+    Gen.bwSmearRenormExpr]
 
 theorem renorm_get (img out : Arr ℝ) (i j : ℤ) : (renorm img out).get i j = out.get i j * arrSum img / arrSum out := rfl
 
